@@ -4,6 +4,7 @@ import copy
 import json
 import os
 import random
+import re
 import shutil
 import tempfile
 
@@ -126,6 +127,12 @@ def _paths(x, pre=()):
     return out
 
 
+def _get(x, path):
+    for k in path:
+        x = x[k]
+    return x
+
+
 def _set(x, path, val):
     if not path:
         return val
@@ -198,9 +205,20 @@ def mutate(rnd, seed):
         if k == 'body' and isinstance(body, (dict, list)):
             ps = _paths(body)
             p = rnd.choice(ps)
-            op = rnd.choice(['replace', 'replace', 'replace', 'delete', 'addkey', 'dupe_rename'])
+            op = rnd.choice(['replace', 'replace', 'replace', 'delete', 'addkey', 'dupe_rename', 'cross'])
             try:
-                if op == 'replace' or not p:
+                if op == 'cross':
+                    # an identifier of the request itself where another one is expected
+                    # (a provider as its own parent, a consumer as a provider, ...)
+                    ids = re.findall(r'[0-9a-f]{8}-[0-9a-f]{4}-[0-9a-f]{4}-[0-9a-f]{4}-[0-9a-f]{12}', path + ' ' + json.dumps(body))
+                    uu = [q for q in ps if q and isinstance(_get(body, q), str)
+                          and re.match(r'^[0-9a-f-]{36}$', _get(body, q))]
+                    if ids and uu:
+                        body = _set(body, rnd.choice(uu), rnd.choice(ids))
+                    op = 'done'
+                if op == 'done':
+                    pass
+                elif op == 'replace' or not p:
                     body = _set(body, p, rand_value(rnd))
                 elif op == 'delete':
                     body = _del(body, p)
@@ -230,7 +248,7 @@ def mutate(rnd, seed):
                 txt.encode('utf-16'), b'"just a string"', b'[]', b'123'])
         elif k == 'query':
             i = rnd.randrange(len(query))
-            op = rnd.choice(['value', 'value', 'dup', 'drop', 'key', 'conflict'])
+            op = rnd.choice(['value', 'value', 'dup', 'drop', 'key', 'conflict', 'conflict_first'])
             key, val = query[i]
             if op == 'value' and rnd.random() < 0.35:
                 # character-level damage to the valid value: look-alike digits,
@@ -251,6 +269,9 @@ def mutate(rnd, seed):
                                                                            'VCPU:1.5', 'VCPU:9223372036854775807', 'NOSUCH:1', 'in:', '!in:']))
             elif op == 'dup':
                 query.append((key, val))
+            elif op == 'conflict_first':
+                # the valid value stays last: what is validated and what is used may differ
+                query.insert(i, (key, rnd.choice(STRS + ['0', '-1', 'abc', 'bogus', '1.5'])))
             elif op == 'drop':
                 query.pop(i)
             elif op == 'key':
